@@ -408,6 +408,14 @@ def plan_growth(pid, tier, seed):
                          "between fixed types, integers and the four float types judged as the to_num family; StaticCast: Some carries the "
                          "converted value and is given only for layout pairs where no source value can overflow",
                     assumptions=["not one of the 18 listed properties", "the half crate's from_bits / to_bits are trusted"])
+    if pid == "G04":
+        gens = [dict(name="alias", profile="unchecked", bin="harness_opt/opt", dom="big", per_shard=100, args=["--topic", "alias"])]
+        return dict(bins=["opt"], crate="harness_opt", profiles=["unchecked"], gens=gens, designs=[], growth=True,
+                    nontrivial=lambda line: True,
+                    rule="growth: each of the 506 type aliases of src/types.rs names the type it says: I<i>F<f> / U<i>F<f> is signed / "
+                         "unsigned (min_value() < 0), occupies i + f bits (size_of), and reports FRAC_NBITS = f, INT_NBITS = i; the name "
+                         "is parsed inside TLA+ (AcceptAlias)",
+                    assumptions=["not one of the 18 listed properties"])
     gens = [dict(name="consts", profile="unchecked", bin="math", dom="big", per_shard=100, args=["--topic", "consts"])]
     return dict(bins=["math"], profiles=["unchecked"], gens=gens, designs=[], growth=True, nontrivial=lambda line: True,
                 rule="growth: each of the 28 constants of src/consts.rs lies within one unit in the last place of its reference value "
@@ -419,6 +427,7 @@ PLANS = {
     "G01": lambda t, s: plan_growth("G01", t, s),
     "G02": lambda t, s: plan_growth("G02", t, s),
     "G03": lambda t, s: plan_growth("G03", t, s),
+    "G04": lambda t, s: plan_growth("G04", t, s),
     "C12": lambda t, s: plan_math("C12", t, s),
     "C13": lambda t, s: plan_math("C13", t, s),
     "C14": lambda t, s: plan_math("C14", t, s),
